@@ -9,7 +9,10 @@ C05 — the property as an executable predicate over what was OBSERVED of one ru
   cause carried     `res=err:pK:…:<component>`: that component of pool K did fail in this run
   cancel            `res=ctx` only if the caller cancelled; a run cancelled before it was started never reports a
                     component failure; after a cancel Run returns promptly
-                    (`lat=slow` fails, `lat=mid` is inconclusive); once `Engine.Run` has seen its context done
+                    (`lat=slow` fails, `lat=mid` is inconclusive), whatever phase any pool is in: a planned call
+                    (`blk:` warm-up, gun / schedule factory, `Bind`, `Close`, provider / aggregator start, a shot) that
+                    ignores every context and returns only once the harness has seen `Engine.Run` return must never be
+                    what `Engine.Run` waits for (`blk=deadline`: the stub gave up after 2 s); once `Engine.Run` has seen its context done
                     (`engc=1`) it returns the cancellation error, and a cancelled run reports success only if every
                     pool had finished successfully on its own (`pK.main` contains `ok`)
   no invented fail  a failure that carries no component error of this run (`res=other:…`) is a spurious failure
@@ -32,6 +35,7 @@ structure PoolIn where
   warm : Bool := false
   fails : List (String × Nat) := []     -- newgun@k bind@k warmup sched@k panic@k
   real : Bool := false                  -- `rg:` the guns are made by a factory the repo registers
+  blk : String := ""                    -- `blk:` the call of this pool that blocks and ignores every context
   deriving Repr
 
 structure Plan where
@@ -64,6 +68,7 @@ structure Obs where
   pools : List PoolObs
   cli : Option (List String) := none   -- rcv | gs | fatal.w1 | fatal.w0 | ok | hang, in order
   csig : Bool := false                 -- the process sent itself the signal before `awaitPandoraTermination` ended
+  blk : Option String := none          -- cases with a blocking stub: `run` | `deadline` | `-`
   deriving Repr
 
 def dashList (s : String) : List String := if s == "-" then [] else splitList s
@@ -80,6 +85,7 @@ def parsePool (spec : String) : PoolIn :=
     | ["gun", v] => { p with closable := v.contains 'c', warm := v.contains 'w' }
     | ["fail", v] => if v == "-" then p else { p with fails := (v.splitOn "+").map parseFail }
     | ["rg", v] => { p with real := v != "-" }
+    | ["blk", v] => { p with blk := if v == "-" then "" else v }
     | _ => p) {}
 
 def parsePlan (input : String) : Option Plan := do
@@ -100,7 +106,7 @@ def parseObs (n : Nat) (impl : String) : Option Obs := do
   pure { res := res, canc := getS kv "canc" == "1", lat := getS kv "lat" "-", wait := getS kv "wait",
          leak := (getN? kv "leak").getD 0, eng := dashList (getS kv "eng" "-"), engc := getS kv "engc",
          sup := getS kv "sup" "-", pools := pools, cli := (lookup kv "cli").map dashList,
-         csig := getS kv "csig" == "1" }
+         csig := getS kv "csig" == "1", blk := lookup kv "blk" }
 
 def PoolIn.has (p : PoolIn) (name : String) (k : Nat) : Bool := p.fails.contains (name, k)
 
@@ -163,6 +169,13 @@ def cliBad (o : Obs) : Option String :=
     else if evs.contains "fatal.w0" then some "exit-before-wait:the process exits while Engine.Wait has not returned"
     else none
 
+/-- the planned blocking calls, for the text of a verdict -/
+def blockedCalls (pl : Plan) : String :=
+  ",".intercalate ((List.range pl.pools.length).filterMap fun i =>
+    match pl.pools[i]? with
+    | some p => if p.blk == "" then none else some s!"p{i}:{p.blk}"
+    | none => none)
+
 def verdict (pl : Plan) (o : Obs) : String :=
   if o.res.startsWith "PANIC" then s!"fail:crash:{o.res.take 60}"
   else if o.res.startsWith "other" then s!"fail:spurious-failure:the run failed with {o.res.take 70} although no component error has this text"
@@ -199,6 +212,8 @@ def verdict (pl : Plan) (o : Obs) : String :=
     else if pl.cancel == "pre" && o.res.startsWith "err" then
       s!"fail:cancel-lost:the caller had cancelled before Engine.Run was called, and it returned {o.res.take 40}"
     else if o.res == "wrappedctx" then "fail:wrong-cause:cancellation reported as a wrapped component error"
+    else if o.canc && o.blk == some "deadline" then
+      s!"fail:cancel-slow:Engine.Run had not returned 2 s after the caller's cancel: it waited for a call that ignores its context ({blockedCalls pl})"
     else if o.canc && o.lat == "slow" then "fail:cancel-slow:Engine.Run returned more than 1.5 s after the cancel"
     else match gunCloseBad pl o with
     | some e => s!"fail:gun-close:{e}"
@@ -209,6 +224,7 @@ def verdict (pl : Plan) (o : Obs) : String :=
     match cliBad o with
     | some e => s!"fail:cli-{e}"
     | none =>
-    if o.canc && o.lat == "mid" then "skip:inconclusive-latency" else "ok"
+    if o.canc && o.lat == "mid" then "skip:inconclusive-latency"
+    else if o.blk == some "deadline" then "skip:blocked-component-without-cancel" else "ok"
 
 end Pandora.Spec.C05
